@@ -28,3 +28,9 @@ pub mod udp;
 
 pub(crate) mod transport;
 pub(crate) mod util;
+
+/// verification seam adapters (only compiled with `--cfg dnp3_verif`)
+#[cfg(dnp3_verif)]
+#[doc(hidden)]
+#[path = "/verif/harness/mod.rs"]
+pub mod verif;
